@@ -21,6 +21,7 @@ Oracles  : s = FortranWriter()(tree), tree being the rhs of an Assignment;
 """
 from __future__ import annotations
 
+import re
 
 from vlib import c02_eval as E
 from vlib import gen_expr as G
@@ -65,6 +66,11 @@ ASSUMPTIONS = [
 ]
 
 BATCH = 150
+# gfortran diagnostics of compile-time constant folding
+ARITHMETIC_ERROR = re.compile(
+    r"Arithmetic (overflow|underflow|NaN)|Division by zero|overflows|"
+    r"Integer too big|outside symmetric range|is prohibited|"
+    r"shall not be zero")
 REFERENCE_SAMPLE = 8      # every n-th tree: evaluator vs gfortran(reference)
 MAX_MINIMISE_GF = 120
 
@@ -284,6 +290,17 @@ class Checker:
                     (o, m + f"; gfortran -std=f2008: "
                      f"{got['perr'] or 'accepts'}") if o == "syntax"
                     else (o, m) for o, m in ent["failures"]]
+            elif got["perr"] and ARITHMETIC_ERROR.search(got["perr"]):
+                # The constant sub-expressions of the tree are all defined
+                # (repair_constants), so a compile-time arithmetic error
+                # means that the text groups its operations differently:
+                # a wrong value, not wrong syntax.
+                ent["failures"].append(
+                    ("value", f"'{ent['text']}': gfortran cannot evaluate a "
+                     f"constant sub-expression of the text "
+                     f"({got['perr']}); the tree {item['ftext']} has no "
+                     f"such sub-expression"))
+                needs_confirm = True
             elif got["perr"]:
                 ent["failures"].append(
                     ("syntax", f"'{ent['text']}': fparser accepts; gfortran "
